@@ -84,15 +84,37 @@ impl PulledMessage {
 
 // ======================================================================================
 // src/push/push_loop.rs: HTTP push payload (region of encode_message_payload up to the serde_json call)
+// TRUSTED (A-LIB): the four stock engines of the base64 crate; `b64` is the STANDARD alphabet with padding (the one
+// Pub/Sub's JSON push format uses), the other three are modelled as different, unconstrained encodings
 pub struct B64Engine { x: u8 }
+pub struct B64EngineUrl { x: u8 }
+pub struct B64EngineNoPad { x: u8 }
+pub struct B64EngineUrlNoPad { x: u8 }
+pub uninterp spec fn b64_url(s: Seq<u8>) -> Seq<char>;
+pub uninterp spec fn b64_nopad(s: Seq<u8>) -> Seq<char>;
+pub uninterp spec fn b64_url_nopad(s: Seq<u8>) -> Seq<char>;
 impl B64Engine {
-    // TRUSTED (A-LIB): base64 STANDARD engine
     #[verifier::external_body]
     pub fn encode(&self, input: Bytes) -> (r: String) ensures r@ == b64(input@) { unimplemented!() }
+}
+impl B64EngineUrl {
+    #[verifier::external_body]
+    pub fn encode(&self, input: Bytes) -> (r: String) ensures r@ == b64_url(input@) { unimplemented!() }
+}
+impl B64EngineNoPad {
+    #[verifier::external_body]
+    pub fn encode(&self, input: Bytes) -> (r: String) ensures r@ == b64_nopad(input@) { unimplemented!() }
+}
+impl B64EngineUrlNoPad {
+    #[verifier::external_body]
+    pub fn encode(&self, input: Bytes) -> (r: String) ensures r@ == b64_url_nopad(input@) { unimplemented!() }
 }
 pub mod base64 { pub mod engine { pub mod general_purpose {
     use super::super::super::*;
     pub exec const STANDARD: B64Engine = B64Engine { x: 0 };
+    pub exec const URL_SAFE: B64EngineUrl = B64EngineUrl { x: 0 };
+    pub exec const STANDARD_NO_PAD: B64EngineNoPad = B64EngineNoPad { x: 0 };
+    pub exec const URL_SAFE_NO_PAD: B64EngineUrlNoPad = B64EngineUrlNoPad { x: 0 };
 } } }
 pub struct SubscriptionName { pub x: u8 }
 pub uninterp spec fn display_sub(n: SubscriptionName) -> Seq<char>;
@@ -106,7 +128,7 @@ pub struct Subscription { pub name: SubscriptionName }
 //@item src/push/push_loop.rs struct PushPayloadMessage drop-derive=Serialize,Deserialize strip-attr=serde
 
 //@fn src/push/push_loop.rs encode_message_payload tags=C09 name=push_payload_region tail=payload
-//@ region /let encoded_data = base64::engine::general_purpose::STANDARD\.encode\(message\.data\.clone\(\)\);/ /^\s*\};\s*$/ as fn push_payload_region(subscription: &Arc<Subscription>, message: &Arc<TopicMessage>) -> (payload: PushPayload)
+//@ region /^\s*let encoded_data = / /^\s*\};\s*$/ as fn push_payload_region(subscription: &Arc<Subscription>, message: &Arc<TopicMessage>) -> (payload: PushPayload)
 //@ # C09: the push delivery names the subscription and carries the base64 data, the message id (both casings) ...
 //@ ensures[C09] payload.subscription@ == display_sub(subscription.name)
 //@ ensures[C09] payload.message.data@ == b64(message.data@)
